@@ -22,14 +22,18 @@ import (
 	"os"
 	"path/filepath"
 	"regexp"
+	"runtime"
 	"sort"
 	"strconv"
 	"strings"
+	"sync"
+	"sync/atomic"
 	"time"
 
 	"github.com/AdguardTeam/AdGuardDNS/internal/agd"
 	"github.com/AdguardTeam/AdGuardDNS/internal/agdcache"
 	"github.com/AdguardTeam/AdGuardDNS/internal/cmd"
+	"github.com/AdguardTeam/AdGuardDNS/internal/connlimiter"
 	"github.com/AdguardTeam/AdGuardDNS/internal/dnsserver"
 	"github.com/AdguardTeam/AdGuardDNS/internal/dnsserver/ratelimit"
 	"github.com/AdguardTeam/AdGuardDNS/internal/dnssvc"
@@ -51,6 +55,7 @@ const (
 	kT             // bool
 	kP             // uint16 port
 	kS             // string that must not be empty
+	kX             // identifier that refers to (or is referred to by) another part of the file, or protocol name
 )
 
 // field is one mutable scalar of the configuration file.
@@ -72,8 +77,8 @@ var fields = []field{
 	{"ratelimit.allowlist.type", kE, "consul", []string{"backend", "consul", "redis", "Consul", ""}},
 	{"ratelimit.allowlist.refresh_interval", kD, d(3600 * sec), nil},
 	{"ratelimit.connection_limit.enabled", kT, "1", nil},
-	{"ratelimit.connection_limit.stop", kU, "1000", []string{"799", "800", "801"}},
-	{"ratelimit.connection_limit.resume", kU, "800", []string{"999", "1000", "1001"}},
+	{"ratelimit.connection_limit.stop", kU, "1000", []string{"799", "800", "801", "3", "4", "5", "6", "7", "8"}},
+	{"ratelimit.connection_limit.resume", kU, "800", []string{"999", "1000", "1001", "3", "4", "5", "6", "7", "8"}},
 	{"ratelimit.ipv4.count", kU, "300", nil},
 	{"ratelimit.ipv4.interval", kD, d(10 * sec), nil},
 	{"ratelimit.ipv4.subnet_key_len", kI, "24", []string{"31", "32", "33", "48", "128"}},
@@ -154,6 +159,27 @@ var fields = []field{
 	{"server_groups.0.ddr.public_records.tls_port", kP, "853", nil},
 	{"interface_listeners.list.eth0_plain_dns.port", kP, "53", nil},
 	{"interface_listeners.list.eth0_plain_dns_secondary.port", kP, "5353", nil},
+	// Third wave: cross-references and the protocols of the servers bound to addresses.
+	{"server_groups.0.filtering_group", kX, "default", []string{"default", "family", "non_filtering", "nope", ""}},
+	{"filtering_groups.0.id", kX, "default", []string{"default", "family", "non_filtering", "other", ""}},
+	{"filtering_groups.0.rule_lists.0", kX, "adguard_dns_filter", []string{"adguard_dns_filter", "unknown_list", ""}},
+	{"server_groups.0.servers.0.bind_interfaces.0.id", kX, "eth0_plain_dns",
+		[]string{"eth0_plain_dns", "eth0_plain_dns_secondary", "nope", ""}},
+	{"server_groups.0.servers.1.protocol", kX, "tls", protoPool},
+	{"server_groups.0.servers.2.protocol", kX, "https", protoPool},
+	{"server_groups.0.servers.3.protocol", kX, "quic", protoPool},
+}
+
+var protoPool = []string{"dns", "tls", "https", "quic", "dnscrypt", "bogus", "TLS", ""}
+
+// indexIDs is the content of the filter index offered to the conversion of
+// the filtering groups.
+var indexIDs = []string{"adguard_dns_filter"}
+
+// yamlSegs gives the YAML path of the fields whose canonical name (the one the
+// error messages use) differs from the path in the file.
+var yamlSegs = map[string][]string{
+	"filtering_groups.0.rule_lists.0": {"filtering_groups", "0", "rule_lists", "ids", "0"},
 }
 
 // mapKeys gives the YAML path of the fields whose canonical name leaves out a
@@ -165,6 +191,9 @@ var mapKeys = map[string]string{
 
 // segsOf splits a canonical path into YAML path segments.
 func segsOf(path string) (segs []string) {
+	if ys, ok := yamlSegs[path]; ok {
+		return ys
+	}
 	for pre, key := range mapKeys {
 		if strings.HasPrefix(path, pre+".") {
 			segs = append(strings.Split(pre, "."), key)
@@ -206,7 +235,7 @@ func pool(f *field) (vals []string) {
 			"4294967297", "9223372036854775807", "9223372036854775808"}
 	case kB:
 		vals = []string{"-", "-1", "0", "1", "512", "4294967296", "18446744073709551615", "18446744073709551616"}
-	case kE:
+	case kE, kX:
 		return append([]string{"-"}, f.extra...)
 	case kT:
 		return []string{"-", "0", "1"}
@@ -250,7 +279,7 @@ func raw(f *field, v string) string {
 		return v + "ns"
 	case kB:
 		return v + "B"
-	case kE, kS:
+	case kE, kS, kX:
 		return strconv.Quote(v)
 	case kT:
 		if v == "1" {
@@ -372,7 +401,7 @@ func (k *kase) vals() *vals {
 		if m.val == "-" {
 			// An absent key is the Go zero value.
 			switch f.kind {
-			case kE, kS:
+			case kE, kS, kX:
 				vs.v[m.path] = ""
 			default:
 				vs.v[m.path] = "0"
@@ -421,7 +450,7 @@ var (
 
 // fitsType reports whether the value can be decoded into the Go type.
 func fitsType(f *field, v string) bool {
-	if v == "-" || f.kind == kE || f.kind == kT || f.kind == kS {
+	if v == "-" || f.kind == kE || f.kind == kT || f.kind == kS || f.kind == kX {
 		return true
 	}
 	x, _ := new(big.Int).SetString(v, 10)
@@ -467,8 +496,17 @@ func (vs *vals) offenders() (bad []string) {
 		}
 	}
 	for _, s := range sections {
+		if s == "server_groups.0.tls" {
+			// Required exactly when a server speaks an encrypted protocol.
+			continue
+		}
 		if vs.dropped[s] && !optionalSection[s] && vs.present(parent(s)) {
 			bad = append(bad, s)
+		}
+	}
+	if vs.present("server_groups.0.servers") && vs.present("server_groups") {
+		if tlsThere := !vs.dropped["server_groups.0.tls"]; tlsThere != vs.needsTLS() {
+			bad = append(bad, "server_groups.0.tls")
 		}
 	}
 	for _, p := range positive {
@@ -524,8 +562,85 @@ func (vs *vals) offenders() (bad []string) {
 		add("interface_listeners.list.eth0_plain_dns_secondary.port",
 			vs.n("interface_listeners.list.eth0_plain_dns_secondary.port").Sign() == 0)
 	}
+	// Cross-references and protocols (doc/configuration.md, "Server groups",
+	// "Filtering groups"; the note on connection limits: every bound stream
+	// address occupies one slot of the limiter).
+	add("server_groups.0.filtering_group", vs.s("server_groups.0.filtering_group") == "")
+	add("filtering_groups.0.id", vs.s("filtering_groups.0.id") == "")
+	add("filtering_groups.1.id", vs.s("filtering_groups.0.id") == "family")
+	add("filtering_groups.2.id", vs.s("filtering_groups.0.id") == "non_filtering")
+	add("filtering_groups.0.rule_lists.0", vs.s("filtering_groups.0.rule_lists.0") == "")
+	add("server_groups.0.servers.0.bind_interfaces.0.id", vs.s("server_groups.0.servers.0.bind_interfaces.0.id") == "")
+	for _, i := range []string{"1", "2", "3"} {
+		p := "server_groups.0.servers." + i + ".protocol"
+		switch vs.s(p) {
+		case "dns", "tls", "https", "quic":
+		default:
+			// dnscrypt is a protocol, but these servers have no dnscrypt settings.
+			add(p, true)
+		}
+	}
+	if vs.b("ratelimit.connection_limit.enabled") && vs.present("server_groups.0.servers") && vs.present("server_groups") {
+		add("ratelimit.connection_limit.resume",
+			vs.n("ratelimit.connection_limit.resume").Cmp(bi(int64(vs.streamAddrs()))) < 0)
+	}
 	add("network.so_sndbuf", vs.n("network.so_sndbuf").Cmp(bi(1<<31-1)) > 0)
 	add("network.so_rcvbuf", vs.n("network.so_rcvbuf").Cmp(bi(1<<31-1)) > 0)
+
+	return bad
+}
+
+// needsTLS reports whether one of the servers speaks an encrypted protocol.
+func (vs *vals) needsTLS() bool {
+	for _, i := range []string{"1", "2", "3"} {
+		switch vs.s("server_groups.0.servers." + i + ".protocol") {
+		case "tls", "https", "quic":
+			return true
+		}
+	}
+
+	return false
+}
+
+// streamAddrs is the number of addresses on which the servers of the mutated
+// file accept stream connections, counted from the file as distributed: two
+// interface subnets for the plain-DNS server, one address each for servers 1, 2,
+// 4 and 5, two for server 3; DNS-over-QUIC uses no stream socket.
+func (vs *vals) streamAddrs() (n int) {
+	n = 2 + 1 + 1
+	for i, addrs := range map[string]int{"1": 1, "2": 1, "3": 2} {
+		if vs.s("server_groups.0.servers."+i+".protocol") != "quic" {
+			n += addrs
+		}
+	}
+
+	return n
+}
+
+// dangling lists, for a file that passes validation, the cross-references that
+// cannot be resolved at start-up, each with the words its report must contain.
+func (vs *vals) dangling() (bad [][]string) {
+	ifaces := vs.present("interface_listeners")
+	if ifaces && vs.n("interface_listeners.list.eth0_plain_dns.port").Cmp(vs.n("interface_listeners.list.eth0_plain_dns_secondary.port")) == 0 {
+		bad = append(bad, []string{"eth0_plain_dns", "already exists"})
+	}
+	if id := vs.s("filtering_groups.0.rule_lists.0"); id != indexIDs[0] {
+		bad = append(bad, []string{strconv.Quote(id), "not in the index"})
+	}
+	fg := vs.s("server_groups.0.filtering_group")
+	if fg != vs.s("filtering_groups.0.id") && fg != "family" && fg != "non_filtering" {
+		bad = append(bad, []string{"filtering group " + strconv.Quote(fg)})
+	}
+	if !ifaces {
+		bad = append(bad, []string{"bind_interfaces", "interface_listeners"})
+	}
+	switch id := vs.s("server_groups.0.servers.0.bind_interfaces.0.id"); id {
+	case "eth0_plain_dns":
+	case "eth0_plain_dns_secondary":
+		bad = append(bad, []string{strconv.Quote(id), "already registered"})
+	default:
+		bad = append(bad, []string{strconv.Quote(id), "no interface listener"})
+	}
 
 	return bad
 }
@@ -586,6 +701,10 @@ var kindPhrases = []struct{ prefix, kind string }{
 	{"all ports are zero", "allzero"},
 	{"no servers", "empty"},
 	{"server group requires tls", "novalue"},
+	{"server group does not require tls", "cross"},
+	{"protocol dnscrypt requires", "cross"},
+	{"duplicated value", "dup"},
+	{"bad filter id", "badid"},
 }
 
 // canonErr maps a validation error to `path:kind[;path:kind…]`.
@@ -646,6 +765,12 @@ type outcome struct {
 	conv    string
 	build   string
 	handle  []string
+	// xconv is the result of the conversions that resolve cross-references
+	// ("ok <stream listeners>", "xerr stage:what", "panic …"; empty: not run),
+	// xerrText the start-up error, lsn the "<accepting> <parked>" listeners.
+	xconv    string
+	xerrText string
+	lsn      string
 }
 
 var discard = slog.New(slog.NewTextHandler(io.Discard, nil))
@@ -827,10 +952,16 @@ func (rn *runner) runReal(k *kase, vs *vals) (oc outcome) {
 		srvs, err = v.VerifC20Servers(netip.MustParseAddrPort("127.0.0.1:0"))
 		hlib.Must(err)
 		sd, sdot, sq := srvs[0], srvs[1], srvs[2]
+		// The thresholds the built limiter really works with.
+		connLim := "0"
+		if lim := v.VerifC20ConnLimiter(discard); lim != nil {
+			_, stop, resume, _ := connlimiter.VerifC18Snapshot(lim)
+			connLim = fmt.Sprintf("1,%d,%d", stop, resume)
+		}
 		oc.conv = fmt.Sprintf("cache=%s noecs=%d ecs=%d minttl=%d override=%s connlim=%s hcinit=%d "+
 			"bk=%d,%d,%d,%d v4=%d,%d,%d v6=%d,%d,%d tcp=%s,%d quic=%s,%d dns=%d,%d,%d,%d dot=%s,%d,%d,%d,%d",
 			cacheTypeName(cc.Type), cc.NoECSCount, cc.ECSCount, cc.MinTTL, b2s(cc.OverrideCacheTTL),
-			b2s(vs.b("ratelimit.connection_limit.enabled")), fw.HealthcheckInitDuration,
+			connLim, fw.HealthcheckInitDuration,
 			bc.Count, bc.Period, bc.Duration, uint64(bc.ResponseSizeEstimate),
 			bc.IPv4Count, bc.IPv4Interval, bc.IPv4SubnetKeyLen, bc.IPv6Count, bc.IPv6Interval, bc.IPv6SubnetKeyLen,
 			b2s(sd.TCPConf.MaxPipelineEnabled), sd.TCPConf.MaxPipelineCount,
@@ -977,7 +1108,129 @@ func (rn *runner) runReal(k *kase, vs *vals) (oc outcome) {
 		oc.handle = append(oc.handle, got)
 	}
 
+	rn.crossRefs(v, &oc)
+
 	return oc
+}
+
+// xerrKinds classifies the start-up errors of the conversions.
+var xerrKinds = []struct{ phrase, kind string }{
+	{"unknown filtering group", "unknown-filtering-group"},
+	{"is not in the index", "unknown-list"},
+	{"no interface listener found", "unknown-interface"},
+	{"already registered", "duplicate-bind"},
+	{"already exists", "duplicate-port"},
+	{"only supported when interface_listeners are set", "no-interface-listeners"},
+}
+
+// crossRefs runs the conversions that resolve the cross-references of an
+// accepted configuration and, when they succeed, starts one accepting
+// goroutine per stream listener of the converted servers on the configured
+// connection limiter.
+func (rn *runner) crossRefs(v *cmd.VerifC20Conf, oc *outcome) {
+	var grps []*agd.ServerGroup
+	var stage string
+	var err error
+	if p := catch("cross-references", func() {
+		grps, stage, err = v.VerifC20ServerGroups(context.Background(), discard, indexIDs)
+	}); p != "" {
+		oc.xconv = p
+
+		return
+	}
+	if err != nil {
+		kind := "other"
+		for _, k := range xerrKinds {
+			if strings.Contains(err.Error(), k.phrase) {
+				kind = k.kind
+
+				break
+			}
+		}
+		oc.xconv, oc.xerrText = "xerr "+stage+":"+kind, err.Error()
+
+		return
+	}
+	n := 0
+	for _, g := range grps {
+		for _, s := range g.Servers {
+			if s.Protocol != agd.ProtoDoQ {
+				n += len(s.BindData())
+			}
+		}
+	}
+	oc.xconv = fmt.Sprintf("ok %d", n)
+	var lim *connlimiter.Limiter
+	if p := catch("connlimiter", func() { lim = v.VerifC20ConnLimiter(discard) }); p != "" {
+		oc.lsn = p
+
+		return
+	}
+	acc, parked := startListeners(lim, n)
+	oc.lsn = fmt.Sprintf("%d %d", acc, parked)
+}
+
+// fakeListener is an idle stream socket: Accept blocks until Close.
+type fakeListener struct {
+	entered *atomic.Int64
+	done    chan struct{}
+	once    sync.Once
+}
+
+func (f *fakeListener) Accept() (net.Conn, error) {
+	f.entered.Add(1)
+	<-f.done
+
+	return nil, net.ErrClosed
+}
+func (f *fakeListener) Close() error   { f.once.Do(func() { close(f.done) }); return nil }
+func (f *fakeListener) Addr() net.Addr { return &net.TCPAddr{IP: net.IP{127, 0, 0, 1}} }
+
+// startListeners wraps n idle listeners with the limiter the way
+// connlimiter.ListenConfig does, lets one goroutine per listener call Accept
+// and reports, once nothing can move any more, how many reached the socket and
+// how many are parked inside the limiter.  No connection is ever made, so a
+// parked listener stays parked: the answer does not depend on timing.
+func startListeners(lim *connlimiter.Limiter, n int) (accepting, parked int) {
+	if lim == nil || n == 0 {
+		return n, 0
+	}
+	entered := &atomic.Int64{}
+	var ls []net.Listener
+	for i := 0; i < n; i++ {
+		f := &fakeListener{entered: entered, done: make(chan struct{})}
+		ls = append(ls, lim.Limit(f, &dnsserver.ServerInfo{Name: "verif", Addr: fmt.Sprintf("l%d", i), Proto: agd.ProtoDNS}))
+	}
+	var wg sync.WaitGroup
+	started := &atomic.Int64{}
+	for _, l := range ls {
+		wg.Add(1)
+		go func() {
+			defer wg.Done()
+			started.Add(1)
+			_, _ = l.Accept()
+		}()
+	}
+	// Quiescence: every goroutine runs, and either all of them hold a slot or
+	// the counter accepts nothing more; every slot holder sits in its socket.
+	deadline := time.Now().Add(10 * time.Second)
+	for stable := 0; stable < 3 && time.Now().Before(deadline); {
+		cur, _, _, isAcc := connlimiter.VerifC18Snapshot(lim)
+		if started.Load() == int64(n) && (cur == uint64(n) || !isAcc) && entered.Load() == int64(cur) {
+			stable++
+			time.Sleep(200 * time.Microsecond)
+		} else {
+			stable = 0
+			runtime.Gosched()
+		}
+	}
+	accepting = int(entered.Load())
+	for _, l := range ls {
+		_ = l.Close()
+	}
+	wg.Wait()
+
+	return accepting, n - accepting
 }
 
 // class is the coarse form of a build/handle answer compared with the model.
@@ -1046,6 +1299,46 @@ func (rn *runner) run(k *kase, m *hlib.Model) {
 					fmt.Sprintf("accepted configuration cannot serve the first query from %s: %s", q.ip, h), replay)
 			}
 		}
+		dang := vs.dangling()
+		switch {
+		case strings.HasPrefix(oc.xconv, "panic"):
+			r.Violate("accepted-then-panic:cross-reference", "accepted configuration panics while its "+
+				"cross-references are resolved: "+oc.xconv, replay)
+		case strings.HasPrefix(oc.xconv, "xerr"):
+			// A start-up error is a rejection: it must be justified and name
+			// the offender.
+			replay["startup_error"] = oc.xerrText
+			named := false
+			for _, words := range dang {
+				all := true
+				for _, w := range words {
+					all = all && strings.Contains(oc.xerrText, w)
+				}
+				named = named || all
+			}
+			if len(dang) == 0 {
+				r.Violate("startup-error-without-offender", "start-up fails although every reference resolves: "+oc.xerrText, replay)
+			} else if !named {
+				r.Violate("startup-error-misnamed:"+strings.TrimPrefix(oc.xconv, "xerr "),
+					fmt.Sprintf("the start-up error %q names none of the dangling references %v", oc.xerrText, dang), replay)
+			}
+		case strings.HasPrefix(oc.xconv, "ok"):
+			if len(dang) > 0 {
+				r.Violate("accepted-dangling-reference", fmt.Sprintf("start-up succeeds although %v cannot be resolved", dang), replay)
+			}
+			if want := fmt.Sprintf("ok %d", vs.streamAddrs()); oc.xconv != want {
+				r.Violate("stream-listeners-miscounted", fmt.Sprintf("the converted servers have %q stream listeners, the file "+
+					"describes %q", oc.xconv, want), replay)
+			}
+			if strings.HasPrefix(oc.lsn, "panic") {
+				r.Violate("accepted-then-panic:connection-limit", oc.lsn, replay)
+			} else if f := strings.Fields(oc.lsn); len(f) == 2 && f[1] != "0" {
+				r.Violate("accepted-unserviceable:ratelimit.connection_limit", fmt.Sprintf("of the stream listeners of the "+
+					"accepted configuration %s accept connections and %s wait for ever on the connection limiter "+
+					"(stop %s, resume %s)", f[0], f[1], vs.v["ratelimit.connection_limit.stop"],
+					vs.v["ratelimit.connection_limit.resume"]), replay)
+			}
+		}
 	case oc.verdict == "parse":
 		// Reported by the YAML decoder without a crash; nothing else is promised.
 	default:
@@ -1069,6 +1362,7 @@ func (rn *runner) run(k *kase, m *hlib.Model) {
 		for _, q := range queries {
 			lines = append(lines, fmt.Sprintf("handle %s %s %d", b2s(q.ip.Is4()), b2s(q.tcp), q.respLen))
 		}
+		lines = append(lines, "xconv", "listeners")
 	}
 	ans := m.Batch(lines)
 	r.ModelOps += len(lines)
@@ -1085,6 +1379,16 @@ func (rn *runner) run(k *kase, m *hlib.Model) {
 			if h != "skipped" && class(ans[3+i]) != class(h) {
 				r.Disagree("handle", fmt.Sprintf("case %q query %d: real %q, model %q", canon, i, h, ans[3+i]), replay)
 			}
+		}
+		nq := 3 + len(queries)
+		if oc.xconv != "" && ans[nq] != oc.xconv {
+			r.Disagree("xconv", fmt.Sprintf("case %q: real conversions %q (%s), model %q", canon, oc.xconv, oc.xerrText, ans[nq]), replay)
+		}
+		if oc.lsn != "" && ans[nq+1] != oc.lsn {
+			r.Disagree("listeners", fmt.Sprintf("case %q: real listeners accepting/parked %q, model %q", canon, oc.lsn, ans[nq+1]), replay)
+		}
+		if oc.xconv != "" {
+			r.Count("xconv:" + strings.TrimPrefix(oc.xconv, "xerr "))
 		}
 		r.Traces++
 	}
@@ -1107,6 +1411,69 @@ func (rn *runner) run(k *kase, m *hlib.Model) {
 	r.Case(canon, len(k.muts)+len(k.drops) > 0)
 	if len(k.muts)+len(k.drops) >= 2 {
 		r.Sample(map[string]any{"case": canon, "real": oc.verdict, "model": ans[0]}, 9)
+	}
+}
+
+// adaptBase makes the two environment-dependent strings of the distributed
+// example resolvable in the sandbox, so that the real conversions can run: the
+// interface listeners use the loopback device (which owns 127.0.0.0/8, the
+// subnet the example binds), and the DNSCrypt server that reads ./test/dnscrypt.yml
+// gets the inline settings of its neighbour.  No mutated field is touched.
+func adaptBase() {
+	var tree any = distTree
+	for _, id := range []string{"eth0_plain_dns", "eth0_plain_dns_secondary"} {
+		tree = setPath(tree, []string{"interface_listeners", "list", id, "interface"}, "lo", false)
+	}
+	var inline any
+	n := tree
+	for _, seg := range []string{"server_groups", "0", "servers", "5", "dnscrypt"} {
+		n, _ = getChild(n, seg)
+	}
+	inline = n
+	if inline != nil {
+		tree = setPath(tree, []string{"server_groups", "0", "servers", "4", "dnscrypt"}, inline, false)
+	}
+	distTree = tree.(yaml.MapSlice)
+}
+
+// limiterCampaign compares the real limiter with the model on explicit
+// thresholds and listener counts, including the starving ones that validation
+// rejects.
+func (rn *runner) limiterCampaign(m *hlib.Model) {
+	type lc struct{ stop, resume, n int }
+	var cases []lc
+	for stop := 1; stop <= 7; stop++ {
+		for _, resume := range []int{1, stop} {
+			for n := 1; n <= 8; n++ {
+				cases = append(cases, lc{stop, resume, n})
+			}
+		}
+	}
+	var lines []string
+	for _, c := range cases {
+		lines = append(lines, fmt.Sprintf("lim %d %d %d", c.stop, c.resume, c.n))
+	}
+	ans := m.Batch(lines)
+	rn.r.ModelOps += len(lines)
+	for i, c := range cases {
+		lim, err := connlimiter.New(&connlimiter.Config{Logger: discard, Stop: uint64(c.stop), Resume: uint64(c.resume)})
+		hlib.Must(err)
+		acc, parked := startListeners(lim, c.n)
+		got := fmt.Sprintf("%d %d", acc, parked)
+		if got != ans[i] {
+			rn.r.Disagree("limiter", fmt.Sprintf("%s: real accepting/parked %q, model %q", lines[i], got, ans[i]), lines[i])
+		}
+		// Independent reading: a listener waiting for a connection holds a slot,
+		// so at most `stop` of them can wait at the same time.
+		if acc > c.stop || acc+parked != c.n || (c.n <= c.stop && parked != 0) {
+			rn.r.Violate("limiter-slots", fmt.Sprintf("%s: %d accepting, %d parked", lines[i], acc, parked), lines[i])
+		}
+		rn.r.Count("limiter-cases")
+		if parked > 0 {
+			rn.r.Count("limiter-starved")
+		}
+		rn.r.Case(lines[i], true)
+		rn.r.Traces++
 	}
 }
 
@@ -1134,7 +1501,7 @@ func (rn *runner) randomCase() *kase {
 		p := pool(f)
 		v := p[rng.IntN(len(p))]
 		// Mostly valid: half of the numeric picks are small positive numbers.
-		if f.kind != kE && f.kind != kT && rng.IntN(2) == 0 {
+		if f.kind != kE && f.kind != kT && f.kind != kX && f.kind != kS && rng.IntN(2) == 0 {
 			v = strconv.Itoa(1 + rng.IntN(40))
 		}
 		k.muts = append(k.muts, mut{f.path, v})
@@ -1165,11 +1532,14 @@ func main() {
 	data, err := os.ReadFile(filepath.Join(cmd.VerifC20RepoRoot(), "config.dist.yaml"))
 	hlib.Must(err)
 	hlib.Must(yaml.Unmarshal(data, &distTree))
+	adaptBase()
 
 	rn := &runner{o: o, r: r, rng: o.Rand("c20"), tcpBudget: 40}
 	if o.Thorough() {
 		rn.tcpBudget = 400
 	}
+
+	rn.limiterCampaign(m)
 
 	// The distributed example itself.
 	rn.run(&kase{}, m)
@@ -1196,6 +1566,9 @@ func main() {
 		{{"ratelimit.connection_limit.enabled", "0"}}, {{"upstream.healthcheck.enabled", "0"}},
 		{{"dnsdb.enabled", "0"}}, {{"ratelimit.tcp.enabled", "0"}}, {{"ratelimit.quic.enabled", "0"}},
 		{{"filters.ede_enabled", "0"}}, {{"filters.rule_list_cache.enabled", "0"}},
+		{{"server_groups.0.servers.1.protocol", "quic"}, {"server_groups.0.servers.2.protocol", "quic"}},
+		{{"server_groups.0.servers.1.protocol", "dns"}, {"server_groups.0.servers.2.protocol", "dns"}},
+		{{"filtering_groups.0.id", "other"}},
 	}
 	for _, c := range ctxs {
 		pre := strings.SplitN(c[0].path, ".", 2)[0]
@@ -1220,6 +1593,10 @@ func main() {
 		for i := range fields {
 			f := &fields[i]
 			switch f.kind {
+			case kX:
+				for _, e := range f.extra {
+					bs = append(bs, fv{f.path, e})
+				}
 			case kE:
 				bs = append(bs, fv{f.path, f.extra[0]}, fv{f.path, f.extra[1]}, fv{f.path, "bogus"})
 			case kT:
